@@ -4,9 +4,10 @@ CONSTANTS
   Txs <- T
   DenomValue <- DV
   RYW = TRUE
-  BaseFeeOn = FALSE
-  MaxTxPerBlock = 4
-  MaxBlocks = 3
+  BaseFeeOn = TRUE
+  MaxTxPerBlock = 3
+  MaxBlocks = 2
 VIEW view
 INVARIANTS SpentAtMostOnce NoValueFromNothing OutputsOnlyLocalQi
+ACTION_CONSTRAINT EmitHist
 CHECK_DEADLOCK FALSE
